@@ -76,9 +76,9 @@ func c19Parse(c *Ctx) {
 	g2 := plainEdges(edgesMatching(b, "bin<==>(ext#1("+pre+"), nil)"))
 	g3 := plainEdges(edgesMatching(b, "bin<!=>(len("+payload+"), 0)", "bin<>>(len("+payload+"), 0)", "bin<>=>(len("+payload+"), 1)"))
 	for _, e := range succ {
-		r.Check(mustPass(fn, e.Instr.Block(), g1), "C19.parse-exits.gate.bech32", c.ipos(e.Instr), "accept only after bech32.Decode returned no error")
-		r.Check(mustPass(fn, e.Instr.Block(), g2), "C19.parse-exits.gate.prefix", c.ipos(e.Instr), "accept only after ParsePrefix(hrp) returned no error")
-		r.Check(mustPass(fn, e.Instr.Block(), g3), "C19.parse-exits.gate.nonempty", c.ipos(e.Instr), "accept only with a non-empty payload")
+		r.Check(exitMustPass(fn, e, g1), "C19.parse-exits.gate.bech32", c.ipos(e.Instr), "accept only after bech32.Decode returned no error")
+		r.Check(exitMustPass(fn, e, g2), "C19.parse-exits.gate.prefix", c.ipos(e.Instr), "accept only after ParsePrefix(hrp) returned no error")
+		r.Check(exitMustPass(fn, e, g3), "C19.parse-exits.gate.nonempty", c.ipos(e.Instr), "accept only with a non-empty payload")
 		pt := b.Of(e.Results[0], e.Instr)
 		_, ok := ana.Match("ext#0("+pre+")", pt)
 		r.Check(ok, "C19.parse-exits.returned-prefix", c.ipos(e.Instr), "returned prefix is ParsePrefix's result for the decoded hrp: %s", short(pt.String(), 120))
@@ -87,7 +87,7 @@ func c19Parse(c *Ctx) {
 		et := b.Of(e.Results[2], e.Instr)
 		if w, _ := ana.Find("ext#2("+dec+")", et); w != nil {
 			fs, _ := et.Arg(0).Str()
-			r.Check(strings.Contains(fs, "%w") && !mustPass(fn, e.Instr.Block(), g1), "C19.parse-exits.bech32-error-propagated", c.ipos(e.Instr), "bech32.Decode's error is wrapped (%%w) and returned: %q", fs)
+			r.Check(strings.Contains(fs, "%w") && !exitMustPass(fn, e, g1), "C19.parse-exits.bech32-error-propagated", c.ipos(e.Instr), "bech32.Decode's error is wrapped (%%w) and returned: %q", fs)
 		}
 	}
 	// accept set by value-set analysis over (version, payload length)
@@ -142,7 +142,7 @@ func c19Parse(c *Ctx) {
 	for _, e := range errs {
 		for idx := range sets[e.Instr.Block()] {
 			tu := ana.TupleOf(tuples, idx)
-			if _, both := got[acc{tu[0], tu[1] - 1}]; both && mustPass(fn, e.Instr.Block(), g3) {
+			if _, both := got[acc{tu[0], tu[1] - 1}]; both && exitMustPass(fn, e, g3) {
 				ambiguous++
 			}
 		}
@@ -251,9 +251,9 @@ func c19Parse(c *Ctx) {
 			vt := pb.Of(e.Results[0], e.Instr)
 			if et.Is("nil") {
 				_, ok := ana.Match("bin<+>(ind<+1>(-1), 1)", vt)
-				r.Check(ok && mustPass(pf.Function, e.Instr.Block(), plainEdges(eq)), "C19.prefix-table.reader", c.ipos(e.Instr), "ParsePrefix returns index i only when s == hrpStrings[i] (exact comparison)")
+				r.Check(ok && exitMustPass(pf.Function, e, plainEdges(eq)), "C19.prefix-table.reader", c.ipos(e.Instr), "ParsePrefix returns index i only when s == hrpStrings[i] (exact comparison)")
 			} else {
-				r.Check(!mustPass(pf.Function, e.Instr.Block(), plainEdges(eq)) && len(eq) == 1, "C19.prefix-table.reader-reject", c.ipos(e.Instr), "ParsePrefix rejects after the table is exhausted")
+				r.Check(!exitMustPass(pf.Function, e, plainEdges(eq)) && len(eq) == 1, "C19.prefix-table.reader-reject", c.ipos(e.Instr), "ParsePrefix rejects after the table is exhausted")
 			}
 		}
 		whole := false
@@ -495,7 +495,7 @@ func c19Migration(c *Ctx) {
 				for _, name := range gateNames {
 					all := true
 					for _, x := range xs {
-						all = all && mustPass(hb.Fn, x.Instr.Block(), hacc[name])
+						all = all && exitMustPass(hb.Fn, x, hacc[name])
 					}
 					if all {
 						acc[name] = append(acc[name], ce.Edge)
@@ -531,7 +531,7 @@ func c19Migration(c *Ctx) {
 	r.Floor("C19.floor.migration-errors", len(errs), 1, "error returns of migration.Decode")
 	for _, name := range gateNames {
 		for _, e := range succ {
-			r.Check(mustPass(fn, e.Instr.Block(), accEdges[name]), "C19.migration-gates."+name, c.ipos(e.Instr), "success return passes the %s gate", name)
+			r.Check(exitMustPass(fn, e, accEdges[name]), "C19.migration-gates."+name, c.ipos(e.Instr), "success return passes the %s gate", name)
 		}
 	}
 	avoid := ana.ReachableAvoiding(fn, rejects)
